@@ -80,6 +80,16 @@ class ExtV:
         return f"Ext({self.dotted})"
 
 
+class LambdaV:
+    """a lambda expression together with the frame it was created in"""
+
+    def __init__(self, node, frame):
+        self.node, self.frame = node, frame
+
+    def key(self):
+        return ("lambda", id(self.node))
+
+
 class Bound:
     def __init__(self, recv, name, func=None):
         self.recv, self.name, self.func = recv, name, func
@@ -124,7 +134,7 @@ def join(a, b):
 
 
 def vkey(v):
-    if isinstance(v, (Const, Sym, Ref, FuncV, ClassV, ModV, ExtV, Bound, Alt)):
+    if isinstance(v, (Const, Sym, Ref, FuncV, ClassV, ModV, ExtV, Bound, Alt, LambdaV)):
         return v.key()
     if isinstance(v, tuple):
         return tuple(vkey(x) for x in v)
